@@ -3,8 +3,6 @@ package main
 import (
 	"fmt"
 	"go/token"
-	"sort"
-	"strings"
 
 	"golang.org/x/tools/go/ssa"
 )
@@ -321,114 +319,6 @@ func (w *World) ruleHeaderSiblings(r *Report, rule string) {
 		}
 	}
 	r.add(rule, "(*Decoder).readMap · 'M' arm first read", pos, ok, fact)
-}
-
-// ruleChunkBuffers.
-func (w *World) ruleChunkBuffers(r *Report, rule string) {
-	n := 0
-	for _, cn := range []string{"string", "binary"} {
-		c := w.codecs()[cn]
-		if c == nil || c.Dec == nil {
-			r.undecided(rule, cn+" decoder", "-", "not found")
-			continue
-		}
-		fn := c.Dec
-		r.fnSeen(fnName(fn))
-		// payload reader calls inside a loop and their buffer argument
-		for _, site := range w.callSitesIn(fn) {
-			if site.callee != "readRunes" && site.callee != "io.ReadFull" {
-				continue
-			}
-			buf := site.call.Call.Args[1]
-			phi, isPhi := buf.(*ssa.Phi)
-			if !isPhi {
-				// not loop-carried at all: fine if it is a fresh allocation
-				continue
-			}
-			n++
-			key := fmt.Sprintf("%s · buffer of %s", fnName(fn), site.key())
-			ok := true
-			var facts []string
-			hb := phi.Block()
-			for i, p := range hb.Preds {
-				// back edge: predecessor dominated by the header
-				if !hb.Dominates(p) {
-					continue
-				}
-				leaves := phiLeaves(phi.Edges[i], phi, map[ssa.Value]bool{})
-				for _, lf := range leaves {
-					switch x := lf.(type) {
-					case *ssa.Phi:
-						if x == phi {
-							ok = false
-							facts = append(facts, "on a back edge the buffer is carried over unchanged from the previous chunk")
-						}
-					case *ssa.MakeSlice:
-						if !w.isLengthRead(x.Len) {
-							ok = false
-							facts = append(facts, "buffer re-made with a length that is not the chunk length just read: "+x.Len.String())
-						} else {
-							facts = append(facts, "re-made with the chunk length read in this iteration")
-						}
-					case *ssa.Slice:
-						if x.High == nil || !w.isLengthRead(x.High) {
-							ok = false
-							facts = append(facts, "buffer re-sliced to something other than the chunk length just read")
-						} else if ph2 := phiLeaves(x.X, phi, map[ssa.Value]bool{}); len(ph2) > 0 {
-							// re-slicing the old buffer only works when it is long enough: needs growth on the other path
-							for _, l2 := range ph2 {
-								if l2 == ssa.Value(phi) {
-									ok = false
-									facts = append(facts, "buffer only re-sliced from the previous one (cannot grow): a later chunk longer than the buffer is truncated or panics")
-								}
-							}
-						}
-					default:
-						ok = false
-						facts = append(facts, "unrecognised buffer source "+lf.String())
-					}
-				}
-			}
-			sort.Strings(facts)
-			r.add(rule, key, w.instrPos(site.call), ok, strings.Join(uniq(facts), "; "))
-		}
-	}
-	r.floor(rule, n, 2)
-}
-
-// phiLeaves resolves v through φ-nodes other than the loop header's.
-func phiLeaves(v ssa.Value, header *ssa.Phi, seen map[ssa.Value]bool) []ssa.Value {
-	if seen[v] {
-		return nil
-	}
-	seen[v] = true
-	if p, ok := v.(*ssa.Phi); ok && p != header {
-		var out []ssa.Value
-		for _, e := range p.Edges {
-			out = append(out, phiLeaves(e, header, seen)...)
-		}
-		return out
-	}
-	return []ssa.Value{v}
-}
-
-// isLengthRead: v is result #0 of a call to a length reader (a package
-// function func(ByteRuneReader, byte) (int, error)).
-func (w *World) isLengthRead(v ssa.Value) bool {
-	ex, ok := v.(*ssa.Extract)
-	if !ok || ex.Index != 0 {
-		return false
-	}
-	c, ok := ex.Tuple.(*ssa.Call)
-	if !ok {
-		return false
-	}
-	sc := c.Call.StaticCallee()
-	if sc == nil || !w.inPkg(sc) {
-		return false
-	}
-	sig := sc.Signature
-	return sig.Params().Len() == 2 && sig.Results().Len() == 2 && typeStr(sig.Results().At(0).Type()) == "int" && (typeStr(sig.Params().At(1).Type()) == "byte" || typeStr(sig.Params().At(1).Type()) == "uint8")
 }
 
 var _ = token.ADD
